@@ -244,8 +244,21 @@ def main():
             return 0
         print(json.dumps({"reproduced": False, "witness": None, "evaluations": 0, "error": "unknown property id and no props/replay_b.py", "property": pid}))
         return 0
+    if os.environ.get("PYTHONHASHSEED") is None:
+        # pin the string-hash seed (eyecite's output depends on it, see run.py) and re-run ourselves
+        hs = req.get("hashseed")
+        if hs is None:
+            hs = (req.get("known_finding") or {}).get("hashseed") if isinstance(req.get("known_finding"), dict) else None
+        if hs is None:
+            hs = int(req.get("seed") or 0)
+        env = dict(os.environ, PYTHONHASHSEED=str(int(hs) % 4294967296))
+        p = subprocess.run([sys.executable, os.path.abspath(__file__)], input=raw, text=True, capture_output=True, env=env)
+        sys.stderr.write(p.stderr)
+        sys.stdout.write(p.stdout if p.stdout.strip() else json.dumps({"reproduced": False, "error": "replay child printed nothing", "property": pid}) + "\n")
+        return 0
     try:
         out = replay_known(req) if "known_finding" in req else replay_obligation(req)
+        out["hashseed"] = os.environ.get("PYTHONHASHSEED")
     except Exception as e:
         import traceback
 
